@@ -187,6 +187,9 @@ structure State where
   custom : List (Entry Key)
   hst : HSt
   sendCap : Nat
+  /-- ghost (not in the code, never printed by the driver): the number of connection-epoch changes so far; the
+      `u8` timer token is this number modulo 256 -/
+  epoch : Nat := 0
 deriving Repr
 
 /-! ### Nondeterminism -/
